@@ -92,9 +92,16 @@ func newValue(typ *meta.Type, f val.Format, v interface{}) (val.Value, error) {
 	case val.FmtUnionList:
 		return toUnionList(typ, v)
 	case val.FmtLeafRef:
-		return NewValue(typ.Resolve(), v)
+		resolved := typ.Resolve()
+		if resolved == typ {
+			return nil, fmt.Errorf("leafref %s (path %s) does not lead to a leaf whose type values can take", typ.Ident(), typ.Path())
+		}
+		return NewValue(resolved, v)
 	case val.FmtLeafRefList:
 		resolved := typ.Resolve()
+		if resolved == typ {
+			return nil, fmt.Errorf("leafref %s (path %s) does not lead to a leaf whose type values can take", typ.Ident(), typ.Path())
+		}
 		return newValue(resolved, resolved.Format().List(), v)
 	case val.FmtBitsList:
 		return toBitsList(typ.Bits(), v)
